@@ -324,8 +324,9 @@ CLAIMED = {
              "none is reachable from x, then after any sequence of allowed mutations through x - each overwriting a cell of the "
              "region x has been able to name (what it reached at the start plus what it wrote since) or taking a free cell, and "
              "storing references into that region - every cell y reaches holds what it held, y reaches exactly the same cells (its "
-             "value to any depth is unchanged), and x still reaches none of them (so the same holds for what happens next and, "
-             "with the roles exchanged, for mutations through y); the invariant includes that the region covers whatever x "
+             "value to any depth is unchanged), x still reaches none of them, and both regions are still allocated - the theorem's own "
+             "hypotheses with x and y exchanged (C18_frame_composes), so it applies again to a round of mutations through y, then x, "
+             "and so on: in any alternation of rounds a round never changes a cell the other side reaches; the invariant includes that the region covers whatever x "
              "reaches now. (2) Observed sharing table: on every run the object graphs of source and result of every class x "
              "derivation (31 classes/variants incl. identity-transform variants; copy, x*M, M*x, abs, Path(x), constructor-from-"
              "object, ~M, +) are extracted from the running library by introspection (instance dictionaries, slots, lists, tuples, "
